@@ -920,3 +920,8 @@ MUTANTS["C02"] += [
     M("two_sweeps_as_loop_is_fine", CLI, '        semantics.assign_optimal_throughput(kernel)\n        semantics.assign_optimal_throughput(kernel)\n', "        for _ in range(2):\n            semantics.assign_optimal_throughput(kernel)\n", "SILENT", "same two sweeps"),
     M("three_sweeps_is_fine", CLI, '        semantics.assign_optimal_throughput(kernel)\n        semantics.assign_optimal_throughput(kernel)\n', "        for _ in range(3):\n            semantics.assign_optimal_throughput(kernel)\n", "SILENT", "more sweeps are not fewer"),
 ]
+
+MUTANTS["C06"] += [
+    M("revert_written_operand_wins", ISA, '                    if o_reg_name not in reg_operand_names or any(\n                        o is d\n                        for d in chain(\n                            instruction_form.semantic_operands["destination"],\n                            instruction_form.semantic_operands["src_dst"],\n                        )\n                    ):\n                        reg_operand_names[o_reg_name] = operand_name\n', "                    reg_operand_names[o_reg_name] = operand_name\n", "R7", "revert of fix b0ca2cd"),
+    M("written_operand_wins_membership_is_fine", ISA, "                        o is d\n                        for d in chain(", "                        o in (d,)\n                        for d in chain(", "SILENT", "membership instead of identity"),
+]
